@@ -37,6 +37,7 @@ type World struct {
 	loopCache   map[*ssa.Function]*LoopInfo
 	mu          sync.Mutex
 	loadSecs    float64
+	isaTable    map[string]*IsaEntry
 	replayHooks map[string]func(*World, checkOpts, *Obligation) *ReplayResult
 }
 
@@ -47,6 +48,7 @@ func NewWorld(repo string) *World {
 		globalIDs: map[*ssa.Global]int{}, loopCache: map[*ssa.Function]*LoopInfo{},
 		replayHooks: map[string]func(*World, checkOpts, *Obligation) *ReplayResult{}}
 	registerModels(w)
+	registerISAModels(w)
 	return w
 }
 
